@@ -42,6 +42,12 @@ def term(t, dev):
         return "%s %s" % NETS[v]
     if k == "grp":
         return "object-group " + v
+    if k == "any6":
+        return "any6"
+    if k == "host6":
+        return "host " + ADDR6[v]
+    if k == "net6":
+        return NETS6[v]
     raise Broken("bad term %r" % (t,))
 
 
@@ -98,12 +104,33 @@ def render(cfg, dev):
     return "\n".join(out) + "\n"
 
 
+def merge_files(case):
+    """(ipv6 text or None, raw text or None) for a merge case (family M1)."""
+    pa = case["tgt"]["parts"]
+    v6 = raw = None
+    if pa["v6"]:
+        v6 = "".join(ace_text("inside_in", a, False) + "\n" for a in pa["v6"]) + \
+            "access-group inside_in in interface inside\n"
+    if pa["pre"] or pa["app"]:
+        raw = "".join(ace_text("inside_in", a, False) + "\n" for a in pa["pre"])
+        raw += "access-group inside_in in interface inside\n"
+        if pa["app"]:
+            raw += "[APPEND]\n" + "".join(ace_text("inside_in", a, False) + "\n" for a in pa["app"])
+    return v6, raw
+
+
 # ------------------------------------------------------------------ cmdparse
 
 def _addr(tok):
     """tok list -> (term, rest)"""
     if tok[0] in ("any4", "any"):
         return {"k": "any", "v": ""}, tok[1:]
+    if tok[0] == "any6":
+        return {"k": "any6", "v": ""}, tok[1:]
+    if tok[0] == "host" and ":" in tok[1]:
+        return {"k": "host6", "v": RADDR6[tok[1]]}, tok[2:]
+    if tok[0] in RNETS6:
+        return {"k": "net6", "v": RNETS6[tok[0]]}, tok[1:]
     if tok[0] == "host":
         return {"k": "host", "v": RADDR[tok[1]]}, tok[2:]
     if tok[0] == "object-group":
